@@ -222,7 +222,7 @@ let pcq_start kv =
   let cap = geti kv "cap" 1 in
   let prod = getl kv "prod" and cons = getl kv "cons" in
   let threads =
-    List.mapi (fun p n -> QProd (QPWait, List.init n (fun i -> z_of_int (p * 1000 + i + 1)))) prod
+    List.mapi (fun p n -> QProd (QPWait, List.init n (fun i -> z_of_int (p * 1000000 + i + 1)))) prod
     @ List.map (fun n -> QCons (QCWait, nat_of_int n, [])) cons in
   let capn = nat_of_int cap in
   (pcq_ops capn (List.length threads), pcq_init (pcq_empty_init capn) (pcq_used_init capn) threads, "")
@@ -249,10 +249,18 @@ let ring_ops k b = {
         (ints_text (List.rev_map int_of_nat s.r_wsizes)));
 }
 
+(* writes=100,p7,8192 : write() of 100 pattern bytes, operator<<(uint64_t) of a 7-digit number, ... *)
+let digits = "1234567890123456789"
 let ring_start kv =
-  let writes = getl kv "writes" in
+  let items = match get kv "writes" "" with "" -> [] | s -> String.split_on_char ',' s in
   let k = ring_blocks and b = ring_block_size in
-  let prog = List.mapi (fun w n -> List.init n (fun j -> z_of_int (pattern w j))) writes in
+  let prog = List.mapi (fun w it ->
+      if it.[0] = 'p' then
+        let n = int_of_string (String.sub it 1 (String.length it - 1)) in
+        RPut (ring_put_u64, List.init n (fun j -> z_of_int (Char.code digits.[j])))
+      else
+        let n = int_of_string it in
+        RWrite (List.init n (fun j -> z_of_int (pattern w j)))) items in
   (ring_ops k b, ring_init (ring_output_init k) (ring_trash_init k) b prog, "")
 
 (* fine granularity: one extra scheduling point right after every semaphore post
